@@ -186,7 +186,9 @@ def run(case):
                     q = Angle(q).to(u.arcmin)
                 elif q.unit.physical_type == "length" and q.value > 0:
                     q = SpectralCoord(q)
-                    if not case["fam"].startswith("probe") and case["which"] in ("wcs", "default", "list"):
+                    if case["fam"].startswith("fits") and case["which"] in ("wcs", "default", "list"):
+                        # (FITS families only: a lookup-table WCS gives no value one ulp beyond its last entry, where a
+                        #  wavelength can land after the round trip through a frequency)
                         q = q.to(u.THz)
             return q
         pts = [[None if m else as_value(v, un) for v, m, un in zip(world, isnone, units)] for world, isnone in zip(val_points, none_world)]
